@@ -218,7 +218,7 @@ func runWorker(scratch string, env []string, outFile string, timeout time.Durati
 	cmd := exec.Command(filepath.Join(scratch, "simworker"), "-test.run", "^TestSim$", "-test.timeout", "0")
 	cmd.Dir = scratch
 	cmd.Env = append(os.Environ(), env...)
-	gmp := "GOMAXPROCS=2"
+	gmp := "GOMAXPROCS=1"
 	for _, e := range env {
 		if strings.HasPrefix(e, "GOMAXPROCS=") {
 			gmp = e
@@ -297,6 +297,9 @@ type agg struct {
 	states     map[string]bool
 	viol       map[string][]RunResult // key prop|class|signature
 	perWorld   map[string]int
+	slowUS     int64
+	slowSeed   uint64
+	slowSteps  int
 }
 
 func newAgg() *agg {
@@ -316,6 +319,9 @@ func (a *agg) add(r RunResult, params string) {
 		a.probes[k] += v
 	}
 	a.simMS += r.SimMS
+	if r.WallUS > a.slowUS {
+		a.slowUS, a.slowSeed, a.slowSteps = r.WallUS, r.Seed, r.Steps
+	}
 	a.steps += int64(r.Steps)
 	a.switches += int64(r.Switches)
 	if r.StateHash != "" {
@@ -400,27 +406,36 @@ func check(prop, tier string) int {
 			wg.Add(1)
 			go func(w int) {
 				defer wg.Done()
-				outFile := filepath.Join(scratch, fmt.Sprintf("out-%d-%d.jsonl", ji, w))
-				env := []string{
-					"SIM_MODE=batch", "SIM_WORLD=" + job.World, "SIM_WMODE=" + job.Mode, "SIM_PARAMS=" + job.Params,
-					fmt.Sprintf("SIM_SEED=%d", seed+uint64(ji)*1000003), fmt.Sprintf("SIM_FROM=%d", w), fmt.Sprintf("SIM_STRIDE=%d", nw),
-					"SIM_COUNT=100000000", fmt.Sprintf("SIM_DEADLINE_UNIX=%d", deadline.Unix()),
-				}
-				log, err := runWorker(scratch, env, outFile, jobBudget+300*time.Second)
-				res, lastBegin, pending, done := readResults(outFile)
-				mu.Lock()
-				defer mu.Unlock()
-				for _, r := range res {
-					a.add(r, job.Params)
-				}
-				if err != nil || !done {
-					if pending {
-						crashes = append(crashes, crashT{job, lastBegin, log})
-					} else {
-						infraMsgs = append(infraMsgs, fmt.Sprintf("worker %d of %s ended abnormally: %v\n%s", w, job.World, err, tail(log, 30)))
+				// worker processes are recycled every `chunk` runs: goroutines left blocked by
+				// killed simulated processes are never freed and slow an ageing process down
+				chunk := 120
+				for from := uint64(w); time.Now().Before(deadline); from += uint64(chunk * nw) {
+					outFile := filepath.Join(scratch, fmt.Sprintf("out-%d-%d.jsonl", ji, w))
+					os.Remove(outFile)
+					env := []string{
+						"SIM_MODE=batch", "SIM_WORLD=" + job.World, "SIM_WMODE=" + job.Mode, "SIM_PARAMS=" + job.Params,
+						fmt.Sprintf("SIM_SEED=%d", seed+uint64(ji)*1000003), fmt.Sprintf("SIM_FROM=%d", from), fmt.Sprintf("SIM_STRIDE=%d", nw),
+						fmt.Sprintf("SIM_COUNT=%d", chunk), fmt.Sprintf("SIM_DEADLINE_UNIX=%d", deadline.Unix()),
+					}
+					log, err := runWorker(scratch, env, outFile, jobBudget+300*time.Second)
+					res, lastBegin, pending, done := readResults(outFile)
+					mu.Lock()
+					for _, r := range res {
+						a.add(r, job.Params)
+					}
+					if err != nil || !done {
+						if pending {
+							crashes = append(crashes, crashT{job, lastBegin, log})
+						} else {
+							infraMsgs = append(infraMsgs, fmt.Sprintf("worker %d of %s ended abnormally: %v\n%s", w, job.World, err, tail(log, 30)))
+						}
+					}
+					mu.Unlock()
+					os.Remove(outFile)
+					if err != nil && !pending {
+						break
 					}
 				}
-				os.Remove(outFile)
 			}(w)
 		}
 		wg.Wait()
@@ -507,6 +522,7 @@ func check(prop, tier string) int {
 		infra("no simulated run completed")
 	}
 	writeEvidence(prop, tier, seed, plan, a, time.Since(start).Seconds(), simS, nViol, len(seen))
+	fmt.Printf("simctl: slowest run %.2fs (seed %d, %d steps); simulation phase %.1fs\n", float64(a.slowUS)/1e6, a.slowSeed, a.slowSteps, simS)
 	fmt.Printf("simctl: %s %s: %d runs, %d distinct non-trivial, %.0f runs/hour, %.1f simulated s, faults=%v, %d violation(s), %d known finding(s), %.1fs wall\n",
 		prop, tier, a.evals, len(a.distinct), float64(a.evals)/simS*3600, float64(a.simMS)/1000, a.faults, nViol, len(seen), time.Since(start).Seconds())
 	return exit
